@@ -144,13 +144,13 @@ def assignments(rows, rng):
     return A
 
 
-def run_programs(R, tier, rng, observe=True, assign=True):
+def run_programs(R, tier, rng, observe=True, assign=True, light=False):
     import numpy as np
     from npstructures import RaggedArray
     from harness.fam_ra2 import kl
     to_py = _to_py
     n_prog = 0
-    for B in PBASES:
+    for B in (PBASES[:2] if light else PBASES):
         first = p_lazies(len(B))
         chains = [[l] for l in first]
         # depth 2 (and 3 in the thorough tier)
@@ -158,7 +158,7 @@ def run_programs(R, tier, rng, observe=True, assign=True):
             try: r1 = RaggedArray(B, dtype=int)[to_py(l1)].tolist()
             except Exception: continue
             seconds = p_lazies(len(r1))
-            pick = seconds if tier == "thorough" else rng.sample(seconds, 4)
+            pick = seconds if tier == "thorough" else rng.sample(seconds, 1 if light else 4)
             for l2 in pick:
                 chains.append([l1, l2])
                 if tier == "thorough" and rng.random() < .15:
